@@ -138,6 +138,13 @@ func run(e *ev.Env) {
 	{
 		a := mr("image/png", "", prm{name: "a", val: `"`, quoted: true})
 		corpus("escaped-dquote-then-comma", kMedia, mo("image/png"), true, a, mr("image/png", ""))
+		// a quoted value ending in an escaped backslash is complete; the next range decides
+		b1 := mr("text/html", "", prm{name: "a", val: `dir\`, quoted: true})
+		corpus("trailing-escaped-backslash-then-range", kMedia, mo("application/json"), true, b1, mr("application/json", ""))
+		b2 := mr("text/html", "0.1", prm{name: "a", val: `x\"`, quoted: true})
+		b3 := mr("text/plain", "", prm{name: "b", val: `\\`, quoted: true})
+		corpus("backslash-runs-then-range", kMedia, []offer{moP("image", "png"), moP("text", "html", prm{name: "a", val: `x\"`, quoted: true})}, true,
+			b3, b2, mr("image/*", "0.5"))
 		a2 := mr("text/html", "", prm{name: "a", val: "x,y", quoted: true})
 		corpus("quoted-comma", kMedia, []offer{moP("text", "plain"), moP("text", "html", prm{name: "a", val: "x,y", quoted: true})}, true, a2, mr("text/plain", "0.5"))
 	}
